@@ -100,6 +100,13 @@ def run(chk, ctx) -> None:
             and all(isinstance(s, (ast.Pass, ast.Continue)) for h in t.handlers for s in h.body) for t in trys)
         chk.ob('C05.errors', f'{fi.qualname}:skip_invalid', ok, fi.loc,
                'a combination that is not a hand of the type is skipped (ValueError caught, nothing else done)')
+    # ---- the search is a search: each of the four search classes enumerates the combinations it chooses from (a shortcut that builds one
+    # candidate greedily examines none of the others)
+    for cname in ('CombinationHand', 'BoardCombinationHand', 'HoleBoardCombinationHand', 'BadugiHand'):
+        fi = impls.get(cname)
+        if fi is not None and not _combination_loops(fi):
+            chk.ob('C05.exhaustive', fi.qualname, False, fi.loc,
+                   'every legal combination is examined: the hand is the best of the enumerated combinations', got='no loop over combinations(...)')
     # ---- the search is exhaustive: nothing leaves a combination loop early
     for cname, fi in impls.items():
         for loop in _combination_loops(fi):
